@@ -33,3 +33,111 @@ package p2p
 //@ func (*ExchangeServer).requestHandler(serv, stream)
 //@   props C10
 //@   modifies ghost:storeReads, $now
+
+// ---- Exchange client: request planning (C18, C05) and quorum arithmetic (C09)
+
+//@ func minHeadResponses(numPeers)
+//@   props C09
+//@   requires 0 <= numPeers && numPeers <= 140737488355328
+//@   ensures [C09] small: numPeers <= 2 ==> result == numPeers
+//@   ensures [C09] two-thirds: numPeers >= 3 ==> 3 * result >= 2 * numPeers && 3 * (result - 1) < 2 * numPeers
+
+//@ func prepareRequests(from, amount, headersPerPeer)
+//@   props C18, C05
+//@   requires headersPerPeer >= 1 && amount <= 140737488355328 && from + amount <= MaxUint64
+//@   ensures [C18] nonempty: amount > 0 ==> len(result) >= 1
+//@   ensures [C18] empty: amount == 0 ==> len(result) == 0
+//@   ensures [C18] first: len(result) >= 1 ==> reqOrigin(result[0]) == from
+//@   ensures [C18] chained: forall i int :: 0 <= i && i + 1 < len(result) ==> reqOrigin(result[i+1]) == reqOrigin(result[i]) + result[i].Amount
+//@   ensures [C18] covers: len(result) >= 1 ==> reqOrigin(result[len(result)-1]) + result[len(result)-1].Amount == from + amount
+//@   ensures [C18] sizes: forall i int :: 0 <= i && i < len(result) ==> 1 <= result[i].Amount && result[i].Amount <= headersPerPeer && reqIsOrigin(result[i])
+//@ loop 0:
+//@   invariant slice: amount <= old(amount) && off(requests) == 0 && fresh(arr(requests))
+//@   invariant nonempty: len(requests) >= 1 ==> old(amount) > 0
+//@   invariant covered0: len(requests) == 0 ==> amount == old(amount) && from == old(from)
+//@   invariant covered: len(requests) >= 1 ==> reqOrigin(requests[len(requests)-1]) + requests[len(requests)-1].Amount + amount == old(from) + old(amount)
+//@   invariant cursor: len(requests) >= 1 && amount > 0 ==> from == reqOrigin(requests[len(requests)-1]) + requests[len(requests)-1].Amount
+//@   invariant alloc: forall i int :: 0 <= i && i < len(requests) ==> allocated(requests[i]) && requests[i] > old(allocTop) && allocated(requests[i].Data) && requests[i].Data > old(allocTop)
+//@   invariant frame: unchanged("elems(int)")
+//@   invariant first: len(requests) >= 1 ==> reqOrigin(requests[0]) == old(from)
+//@   invariant chained: forall i int :: 0 <= i && i + 1 < len(requests) ==> reqOrigin(requests[i+1]) == reqOrigin(requests[i]) + requests[i].Amount
+//@   invariant sizes: forall i int :: 0 <= i && i < len(requests) ==> 1 <= requests[i].Amount && requests[i].Amount <= headersPerPeer && reqIsOrigin(requests[i])
+//@   decreases amount
+
+// ---- decoding responses (C13, C05)
+
+//@ func convertStatusCodeToError(code)
+//@   props C13, C05
+//@   ensures [C13] ok: code == pb.StatusCode_OK <==> result == nil
+//@   ensures [C13] not-found: code == pb.StatusCode_NOT_FOUND ==> result == header.ErrNotFound
+//@   ensures [C13] unknown: result != nil && code != pb.StatusCode_NOT_FOUND ==> !errors.Is(result, header.ErrNotFound) && !errors.Is(result, errEmptyResponse)
+//@   ensures [C13] plain: asVerr(result) == nil
+
+//@ func processResponses(resps)
+//@   props C13, C05
+//@   ensures [C13] empty: len(resps) == 0 ==> result1 == errEmptyResponse
+//@   ensures [C13] all-valid: result1 == nil ==> len(result0) == len(resps) && len(resps) >= 1 && forall i int :: 0 <= i && i < len(result0) ==> validated(result0[i]) && decodedFrom(result0[i], resps[i].Body) && !result0[i].IsZero() && resps[i].StatusCode == pb.StatusCode_OK
+//@   ensures [C13] error-no-headers: result1 != nil ==> len(result0) == 0
+//@ loop 0:
+//@   invariant bounds: -1 <= rangeindex && rangeindex + 1 <= len(resps) && len(resps) >= 1
+//@   invariant built-len: len(hdrs) == rangeindex + 1
+//@   invariant built-cap: cap(hdrs) == len(resps)
+//@   invariant built-off: off(hdrs) == 0
+//@   invariant built-fresh: fresh(arr(hdrs))
+//@   invariant frame: unchanged("elems(H)") && unchanged("elems(int)")
+//@   invariant valid: forall i int :: 0 <= i && i <= rangeindex ==> validated(hdrs[i]) && decodedFrom(hdrs[i], resps[i].Body) && !hdrs[i].IsZero() && resps[i].StatusCode == pb.StatusCode_OK
+//@   decreases len(resps) - rangeindex
+
+//@ pure chainOK(want, have) = want == "" || foldEq(want, have)
+
+//@ func validateChainID(want, have)
+//@   props C13
+//@   ensures [C13] exact: result == nil <==> chainOK(want, have)
+
+//@ func sendMessage(ctx, host, to, protocol, req)
+//@   props C13, C05
+//@   modifies $now
+//@   ensures [C05] at-most-requested: len(result0) <= req.Amount
+//@ loop 0:
+//@   invariant count: len(headers) == i && i <= req.Amount
+//@   invariant frame: unchanged("elems(int)") && unchanged("elems(string)") && fresh(arr(headers))
+//@   decreases req.Amount - i
+
+//@ func (*Exchange).request(ex, ctx, to, req)
+//@   props C13
+//@   modifies $now
+//@   ensures [C13] validated: result1 == nil ==> len(result0) >= 1 && len(result0) <= req.Amount && forall i int :: 0 <= i && i < len(result0) ==> validated(result0[i]) && !result0[i].IsZero() && chainOK(ex.Params.chainID, result0[i].ChainID())
+//@   ensures [C13] error-no-headers: result1 != nil ==> len(result0) == 0
+//@ loop 0:
+//@   invariant bounds: -1 <= rangeindex && rangeindex + 1 <= len(hdrs)
+//@   invariant chain: forall i int :: 0 <= i && i <= rangeindex ==> chainOK(ex.Params.chainID, hdrs[i].ChainID())
+//@   decreases len(hdrs) - rangeindex
+
+//@ chaninv (*Exchange).performRequest.resultCh(res): res.err == nil ==> len(res.headers) >= 1 && forall i int :: 0 <= i && i < len(res.headers) ==> validated(res.headers[i]) && !res.headers[i].IsZero() && chainOK(ex.Params.chainID, res.headers[i].ChainID())
+
+//@ func (*Exchange).performRequest$1(from)
+//@   props C13
+//@   modifies $now
+//@   ensures [C13] answers-once: sent("(*Exchange).performRequest.resultCh") == old(sent("(*Exchange).performRequest.resultCh")) + 1
+
+//@ func (*Exchange).performRequest(ex, ctx, req)
+//@   props C13
+//@   modifies $now
+//@   ensures [C13] never-nil-nil: req.Amount > 0 ==> (result1 != nil || len(result0) >= 1)
+//@   ensures [C13] validated: result1 == nil && req.Amount > 0 ==> forall i int :: 0 <= i && i < len(result0) ==> validated(result0[i]) && !result0[i].IsZero() && chainOK(ex.Params.chainID, result0[i].ChainID())
+//@ loop 1:
+//@   invariant last-error: rangeindex#1 >= 0 ==> lastErr != nil
+
+//@ func (*Exchange).Get(ex, ctx, hash)
+//@   props C13
+//@   modifies $now
+//@   ensures [C13] bound: result1 == nil ==> bytes.Equal(result0.Hash(), hash) || (len(result0.Hash()) == 0 && len(hash) == 0)
+//@   ensures [C13] valid: result1 == nil ==> validated(result0) && !result0.IsZero() && chainOK(ex.Params.chainID, result0.ChainID())
+//@   ensures [C13] zero-on-error: result1 != nil ==> result0.IsZero()
+
+//@ func (*Exchange).GetByHeight(ex, ctx, height)
+//@   props C13
+//@   modifies $now
+//@   ensures [C13] zero-height: height == 0 ==> result1 != nil
+//@   ensures [C13] valid: result1 == nil ==> validated(result0) && !result0.IsZero() && chainOK(ex.Params.chainID, result0.ChainID())
+//@   ensures [C13] zero-on-error: result1 != nil ==> result0.IsZero()
